@@ -441,7 +441,8 @@ func (v *visitor) checkFunc(fn reflect.Type, method bool, node ast.Node, name st
 			in = fn.In(i + offset)
 		}
 
-		if isIntegerOrArithmeticOperation(arg) {
+		if isIntegerOrArithmeticOperation(arg) && isNumber(in) {
+			// Integer literals take the parameter's type only if it is numeric.
 			t = in
 			setTypeForIntegers(arg, t)
 		}
